@@ -16,7 +16,8 @@ LEVEL = "model_checking"
 LONG = "a_rather_long_variable_name_that_goes_on_and_on_for_seventy_characters"
 POOL_SMALL = ["y", "Y", "y^", "y*", "y__0", "<state>y", "<state>Y", "<p>y"]
 POOL_BIG = POOL_SMALL + ["y_", "state_y", "lploc_y", "localy", "1y", "^", "_0", LONG, "<state>" + LONG,
-                         "<func>y", "<func>Y", "p_y", "global_state_y", "func_y", "y_0", "<p>Y"]
+                         "<func>y", "<func>Y", "p_y", "global_state_y", "func_y", "y_0", "<p>Y",
+                         "dagrt_t", "Dagrt_DT", "dagrt_state", "dagrt_refcnt_y"]
 NS = {"python": ["var", "func"], "fortran": ["var", "func", "refcount", "unique"]}
 STRIP = ["self._functions.", "self.", "dagrt_state%"]
 
@@ -44,8 +45,8 @@ def run_history(target, hist, pool):
                     break
         else:
             k = pool[key[1] - 1]
-        if k.lower().startswith("dagrt_"):
-            outs.append(None)                     # documented precondition: not an IR name
+        if key[0] == "echo" and k.lower().startswith("dagrt_"):
+            outs.append(None)                     # echoes of the generator's own identifiers are not IR names
             continue
         try:
             if ns == "var":
@@ -87,6 +88,14 @@ def predicate(target, case, pos, clause):
     """Structural predicate of the failing lookup for the finding signature."""
     st = case["steps"][pos - 1]
     out = st["outs"]
+    if clause == "NotReserved":
+        body = out.split("%")[-1].lower()
+        hit = [r for r in RESERVED["exact"] if r == body] or ["prefix " + r for r in RESERVED["prefix"] if body.startswith(r)]
+        return "collides-with-%s" % (hit[0] if hit else "?")
+    if clause == "Injective":
+        prior_keys = [s["keys"] for s in case["steps"][:pos - 1] if s["outs"].lower() == out.lower()]
+        if any(k.lower().startswith("dagrt_refcnt_") for k in prior_keys + [st["keys"]]):
+            return "ir-name-equal-to-an-internal-refcount-key"
     if clause == "Injective":
         prior = [s["outs"] for s in case["steps"][:pos - 1]]
         if out not in prior and out.lower() in [p.lower() for p in prior]:
@@ -108,6 +117,9 @@ def predicate(target, case, pos, clause):
     return "-"
 
 
+RESERVED = {"exact": [], "prefix": []}
+
+
 def reserved_file():
     """Identifiers the Fortran generator uses for itself, read from its source."""
     import os
@@ -118,6 +130,7 @@ def reserved_file():
     toks.discard("dagrt_")
     exact = sorted(t for t in toks if not t.endswith("_"))
     prefix = sorted(t for t in toks if t.endswith("_"))
+    RESERVED["exact"], RESERVED["prefix"] = exact, prefix
     return tlc.write_cases({"exact": [list(t) for t in exact], "prefix": [list(t) for t in prefix]},
                            prefix="reserved_"), exact, prefix
 
